@@ -8,7 +8,7 @@ ASSUMPTIONS = ec.ASSUME + ["model validation (core/validation.rs) is not part of
 RULE = ("case = propagator-level model, entry `first` (= Model::solve's use of the engine); a solution must be returned iff the "
         "brute-force solution set is non-empty; generator keeps roughly half of the models unsatisfiable; non-trivial = verdict decided by search (not trivially empty model)")
 def gen(tier, rng):
-    base = ec.gen_models(ec.entry_first, 3000, 600000)(tier, rng)
+    base = ec.gen_models(ec.entry_first, 12000, 600000)(tier, rng)
     return base
 FAMILIES = [
     Family("solve_random", "solve", gen, nontrivial=lambda c, i: True, prop_judge=plevel.judge_solve),
